@@ -7,6 +7,7 @@ import (
 	"runtime/debug"
 	"strings"
 	"sync"
+	"time"
 )
 
 // ---- C16: real goroutines, a seeded baton schedule the race detector cannot see ----
@@ -25,10 +26,37 @@ import (
 
 var batonTurn int32
 
+// raceStall is set when a goroutine that was given the baton does not hand it
+// back (it blocks for real — only possible if a change adds a lock to the
+// library and the suspended goroutine holds it). Everybody then stops: the run
+// is inconclusive, never a violation.
+var raceStall int32
+
 //go:norace
-func waitTurn(i int) {
+func waitTurn(i int) bool {
 	for load32(&batonTurn) != int32(i) {
+		if load32(&raceStall) != 0 {
+			return false
+		}
 		runtime.Gosched()
+	}
+	return load32(&raceStall) == 0
+}
+
+// waitBack waits for the baton to come back to step i after an interruption;
+// gives up (and declares the run stalled) after a few seconds of real time.
+//
+//go:norace
+func waitBack(i int) {
+	start := time.Now()
+	n := 0
+	for load32(&batonTurn) != -int32(i+1) {
+		runtime.Gosched()
+		n++
+		if n&0x3FF == 0 && (load32(&raceStall) != 0 || time.Since(start) > 5*time.Second) {
+			store32(&raceStall, 1)
+			return
+		}
 	}
 }
 
@@ -112,8 +140,9 @@ func racePointHook(id int) {
 				g.fired++
 				store32(&raceIntRet, int32(i+1))
 				store32(&batonTurn, int32(k))
-				for load32(&batonTurn) != -int32(i+1) {
-					runtime.Gosched()
+				waitBack(i)
+				if load32(&raceStall) != 0 {
+					break
 				}
 			}
 		}
@@ -133,9 +162,7 @@ func racePointHook(id int) {
 	g.fired++
 	store32(&raceIntRet, int32(i+1))
 	store32(&batonTurn, int32(j))
-	for load32(&batonTurn) != -int32(i+1) {
-		runtime.Gosched()
-	}
+	waitBack(i)
 	raceCurG = g
 }
 
@@ -233,6 +260,7 @@ func (e *Exec) runRace() *Violation {
 		raceDone[i] = 1
 	}
 	store32(&raceIntRet, 0)
+	store32(&raceStall, 0)
 	gstate := make([]*raceG, gs+1)
 	for g := 1; g <= gs; g++ {
 		gstate[g] = &raceG{id: g, record: e.recordPoints}
@@ -273,7 +301,9 @@ func (e *Exec) runRace() *Violation {
 				if int(raceOwnerOf[i]) != g {
 					continue
 				}
-				waitTurn(i)
+				if !waitTurn(i) {
+					break // the run has stalled: stop everything
+				}
 				if load32(&raceDone[i]) != 0 {
 					// executed ahead of its turn, inside another goroutine's operation
 					passBaton(i)
@@ -332,6 +362,12 @@ func (e *Exec) runRace() *Violation {
 		e.tx = mix2(e.tx, subs[g].tx)
 	}
 	e.st.Probes[fmt.Sprintf("goroutines_%d", gs)]++
+	if load32(&raceStall) != 0 {
+		// not a verdict about the library: a goroutine blocked for real while another was parked
+		e.st.Probes["runs_stalled_inconclusive"]++
+		e.st.Upstream++
+		return nil
+	}
 	// the detector's verdict for this run
 	if rep := raceLogFrom(logStart); strings.Contains(rep, "DATA RACE") {
 		class := "race"
